@@ -703,6 +703,69 @@ func runC21(c *Ctx) {
 			"when a pack is deleted its .pack file is removed before the .idx/.rev/.promisor sidecars (a crash in between leaves an ignorable orphan index, not an unindexed pack)")
 	}
 
+	// flushed-before-publish: a buffered writer over the temporary file is flushed (not in a deferred call) on every
+	// path before the call that puts the file in place; otherwise the published file is empty until the function returns
+	const r2f = "flushed-before-publish"
+	{
+		dinfo := p.Pkg(dotgitShort).TypesInfo
+		nW := 0
+		for _, fi := range p.FuncsIn(dotgitShort) {
+			if fi.Decl.Body == nil || p.isTestFile(fi.Decl.Pos()) {
+				continue
+			}
+			// buffered writers created in the function
+			var writers []types.Object
+			ast.Inspect(fi.Decl.Body, func(n ast.Node) bool {
+				as, ok := n.(*ast.AssignStmt)
+				if !ok || len(as.Lhs) != 1 || len(as.Rhs) != 1 {
+					return true
+				}
+				if call, ok := unparen(as.Rhs[0]).(*ast.CallExpr); ok {
+					if fn := Callee(dinfo, call); fn != nil && fn.Pkg() != nil && fn.Pkg().Path() == "bufio" && (fn.Name() == "NewWriter" || fn.Name() == "NewWriterSize") {
+						if o := objOf(dinfo, as.Lhs[0]); o != nil {
+							writers = append(writers, o)
+						}
+					}
+				}
+				return true
+			})
+			if len(writers) == 0 {
+				continue
+			}
+			isPublish := func(n ast.Node) bool {
+				if _, isDefer := n.(*ast.DeferStmt); isDefer {
+					return false
+				}
+				return nodeHasCall(n, false, func(call *ast.CallExpr) bool {
+					fn := Callee(dinfo, call)
+					return fn != nil && (fn.Name() == "rewritePackedRefsWhileLocked" || (fn.Name() == "Rename" && isBillyMethod(fn)))
+				}) != nil
+			}
+			f := p.FlowOf(fi)
+			if len(f.Locs(isPublish)) == 0 {
+				continue
+			}
+			for _, w := range writers {
+				w := w
+				nW++
+				c.Analysed(fi)
+				flushes := func(n ast.Node) bool {
+					if _, isDefer := n.(*ast.DeferStmt); isDefer {
+						return false
+					}
+					return nodeHasCall(n, false, func(call *ast.CallExpr) bool {
+						sel, ok := unparen(call.Fun).(*ast.SelectorExpr)
+						return ok && sel.Sel.Name == "Flush" && objOf(dinfo, sel.X) == w
+					}) != nil
+				}
+				h := f.Search(SearchOpts{Starts: []Loc{f.Entry()}, Sink: isPublish, Barrier: flushes})
+				c.Check(h == nil, r2f, fi.Name()+":"+w.Name(), fi.Decl.Pos(), orStr(ifStr(h != nil, "the file is put in place while the buffered writer "+w.Name()+" may still hold its content (no Flush before the publishing call; a deferred Flush runs after it): a crash leaves an empty or cut file under the final name"+hitLines(f, h)),
+					"the buffered writer is flushed on every path before the file is put in place"))
+			}
+		}
+		c.Check(nW >= 1, r2f, dotgitShort+":buffered-publishers", 0, itoa(nW)+" buffered writers over files that are then published examined")
+	}
+
 	// delete-after-close
 	const r3 = "delete-after-close"
 	if cn := c.MustFunc(r3, "git.(*Repository).createNewObjectPack"); cn != nil {
